@@ -21,7 +21,13 @@ TYPES = ['bool', 'int', 'real', 'string', 'date']
 
 REX_POOL = [r'^[a-z]+$', r'^[A-Z]+$', r'^\d+$', r'^[0-9]+$', r'^.*$', r'^$',
             r'^[a-z]{1,3}$', r'^\w+$', r'^[A-Za-z0-9]*$', r'^a', r'^.$',
-            r'^[^\W\d_]+$', r'^\s*\S+\s*$', r'^x\d$', r'^[\w\s]+$']
+            r'^[^\W\d_]+$', r'^\s*\S+\s*$', r'^x\d$', r'^[\w\s]+$',
+            # groups, back-references (numbered and named), alternation
+            # with and without a group, inline flags: each expression of a
+            # list is an expression of its own
+            r'^([a-z])\1$', r'^(\w)(\w)\2\1$', r'^(a|b)c$', r'^a|b$',
+            r'^(?P<d>\d)(?P=d)$', r'(?i)^abc$', r'^(?:ab)+$',
+            r'^(a)(b)?c$']
 
 
 def unspecified_type_case(value, atype):
